@@ -116,9 +116,9 @@ def load_tags(path):
             props = [x for x in re.split(r'[ ,]+', m.group(1)) if x]
             text = TAG_RE.sub('', l).strip()
             j = i
-            # clause text: up to the line where parentheses balance
+            # clause text: from the tag to the line where the clause's parentheses balance
             depth = text.count('(') - text.count(')')
-            while depth > 0 and j < len(lines):
+            while (depth > 0 or '(' not in text) and j < len(lines):
                 nxt = lines[j].strip()
                 text += ' ' + nxt
                 depth += nxt.count('(') - nxt.count(')')
